@@ -130,6 +130,20 @@ def _effect_alias(name):
     return EFFECT_ALIAS.get(name, (name, ""))[0]
 
 
+def _memcpy_text(ct, e):
+    """`from_raw_parts_mut(p, n).copy_from_slice(src)` with n = src.len() (so the length check of copy_from_slice cannot fail) is
+    `ptr::copy_nonoverlapping(src.as_ptr(), p, n)`: std implements the former by the latter.  Printed in the latter form."""
+    if not (e.get("key") or "").endswith("::copy_from_slice") or len(e["args"]) != 2:
+        return None
+    d, s_ = e["args"]
+    if not (d[0] == "ref" and d[1][0] == "P" and s_[0] == "ref" and s_[1][0] == "P"):
+        return None
+    fr = sym._frp(d[1][1])
+    if fr is None or fr[1] != ("len", s_[1][1]):
+        return None
+    return "std::ptr::copy_nonoverlapping(as_ptr(%s), %s, %s)" % (ct.t(norm(s_[1][1])), ct.t(norm(fr[0])), ct.t(norm(fr[1])))
+
+
 def _alias(nm):
     """accessors that denote the same value"""
     return {"as_mut_ptr": "as_ptr"}.get(nm, nm)
@@ -840,7 +854,8 @@ def _path_outcome(F, fn, p, extra, hide_calls=(), renames=None):
                 continue
             flush()
             import summ
-            evs.append("#%d = %s(%s)" % (ct.ids[e["id"]], _effect_alias(summ.call_name(e)), ", ".join(_arg_text(ct, a, sn) for a, sn in zip(e["args"], e["snap"]))))
+            evs.append("#%d = %s" % (ct.ids[e["id"]], _memcpy_text(ct, e) or
+                                     "%s(%s)" % (_effect_alias(summ.call_name(e)), ", ".join(_arg_text(ct, a, sn) for a, sn in zip(e["args"], e["snap"])))))
         elif e["k"] == "write":
             seg[ct.loc(e["loc"])] = ct.t(norm(ct.resolve(e["val"])))
         elif e["k"] == "rawderef":
